@@ -250,6 +250,12 @@ pub fn run_case(case: &FmtCase) -> Result<Vec<CallObs>, String> {
         }
         obs.emitted = std::mem::take(&mut st.lock().unwrap().emitted);
         obs.handler = std::mem::take(&mut *hlog.lock().unwrap());
+        // an observer between calls: must neither panic nor change what follows
+        if i % 3 == 1 && obs.panic.is_none() {
+            if let Err(p) = catch(|| format!("{:?}", client).len()) {
+                obs.panic = Some(format!("Debug-formatting the client panicked: {}", p));
+            }
+        }
         out.push(obs);
     }
     // dropping the client must not panic either
